@@ -1,3 +1,12 @@
 #!/bin/bash
-# placeholder: replaced as the framework lands
-exit 0
+# Build the framework from files on disk only (offline) and warm the Go build caches.
+cd "$(dirname "$0")" || exit 2
+. ./lib.sh
+mkdir -p bin evidence replays
+(cd tools/instrument && go build -o "$VERIF/bin/instrument" .) || infra "cannot build the instrumenter"
+S=$(mktemp -d /var/tmp/verifsetup.XXXXXX) || infra mktemp
+trap 'rm -rf "$S"' EXIT
+make_scratch "$S/src"
+(cd "$S/src" && go build -o "$S/verifsim" ./internal/verifsim/cmd/verifsim) || infra "harness build failed"
+(cd "$S/src" && go build -race -o "$S/verifsim.race" ./internal/verifsim/cmd/verifsim) || infra "race build failed"
+echo "setup ok"
